@@ -305,6 +305,17 @@ def expad_cases(ctx, k, K):
                 else:
                     wt = ref.adjoint(ref.mp_exp_se3(S1 * tht))
                     near(ctx, cid, 'Twist3.exp', Pm, ref.adjoint(np.asarray(T_, dtype=float)), wt, 1e-7 * max(1.0, turns), 'Ad(S1.exp(theta)), theta = |w| + %d turns' % turns)
+        # Ad(T1 T2) = Ad(T1) Ad(T2) with the left factor held as a twist: S * T (documented: exp(S) then T) for a few poses T
+        if np.abs(S[:3]).max() <= 10:
+            for tn_, T_ in poses(ctx.tier, ctx.seed)[1:4]:
+                ok, Y = call(lambda: (tw * sm.SE3(T_.copy())))
+                Pm = dict(P, law='Ad(S*T)', T=tn_.split('|')[0])
+                if not ok:
+                    ctx.fail(cid, 'Twist3.mul', 'raises:' + type(Y).__name__, Pm, 'Twist3 * SE3 raised %r' % (Y,))
+                elif not isinstance(Y, sm.SE3) or len(Y.data) != 1:
+                    ctx.fail(cid, 'Twist3.mul', 'returns:' + type(Y).__name__, Pm, 'Twist3 * SE3 gave %s' % type(Y).__name__)
+                else:
+                    near(ctx, cid, 'Twist3.mul', Pm, Y.Ad(), want @ ref.adjoint(T_), 1e-7, 'Ad(S * T) = Ad(exp S) Ad(T)')
         # the twist among M values (M = 2, 3) and in an object with a history: ad() of value j is the ad of value j
         others = [np.array([1.0, 2.0, 3.0, 0.3, -0.2, 0.1]), np.array([-0.5, 0.0, 2.5, 0.0, 0.0, 0.0])]
         for M, pos in ((2, 0), (2, 1), (3, 1)):
